@@ -128,7 +128,7 @@ func init() {
 		ID: "C08", Level: "exploration",
 		Rule: "one case = one generated history (multi-key commits: many dirty accounts, pools, orders of several owners, candidates/stakes recalculated, frozen-fund batches, expiries, payouts) executed by the generating process (GOMAXPROCS=1, GOGC=off) and re-executed from the recorded requests by two further OS processes with (GOMAXPROCS=4,GOGC=100) and (GOMAXPROCS=16,GOGC=10); per height a digest of (codes, data, gas, tags, validator updates, max gas, app hash) must be identical, and the final exports and emission too; one evaluation = one height compared across the 3 processes; distinct = (tx types x codes) seen in compared blocks",
 		Assumptions: []string{"Go randomises map iteration per range statement, so each order-dependent write has an independent chance to differ in each process"},
-		Quick: 36, Thorough: 900, MinEval: 2000, MinDistinct: 30, Env: []string{"GOMAXPROCS=1", "GOGC=off"},
+		Quick: 36, Thorough: 360, MinEval: 2000, MinDistinct: 30, Env: []string{"GOMAXPROCS=1", "GOGC=off"},
 		Run: func(ctx *WorkCtx, idx int) {
 			r := Rng(ctx.Seed, "C08", idx)
 			sc := StdScenario(idx, r, 110)
